@@ -64,7 +64,13 @@ pub fn run(outdir: &str, seed: u64, thorough: bool) -> serde_json::Value {
 
     // ---- oracle on the implementation
     let n = if thorough { 3000 } else { 200 };
-    let targeted = ["SELECT RANDOM() AS r, t.age AS a FROM users AS t", "SELECT t.age AS a FROM users AS t WHERE RANDOM() < 0.5"];
+    let targeted = ["SELECT RANDOM() AS r, t.age AS a FROM users AS t", "SELECT t.age AS a FROM users AS t WHERE RANDOM() < 0.5",
+        // joins whose condition is built from a set of shared columns
+        "SELECT * FROM (SELECT t.id AS k1, t.age AS k2, t.city AS a FROM users AS t) AS x NATURAL JOIN (SELECT u.id AS k1, u.age AS k2, u.income AS b FROM users AS u) AS y",
+        "SELECT * FROM (SELECT t.id AS k1, t.age AS k2, t.city AS k3, t.score AS a FROM users AS t) AS x NATURAL LEFT JOIN (SELECT u.id AS k1, u.age AS k2, u.city AS k3, u.income AS b FROM users AS u) AS y",
+        "SELECT * FROM (SELECT t.id AS k1, t.age AS k2, t.city AS a FROM users AS t) AS x JOIN (SELECT u.id AS k1, u.age AS k2, u.income AS b FROM users AS u) AS y USING (k1, k2)",
+        "SELECT * FROM cities NATURAL JOIN users",
+        "SELECT t.city AS c, COUNT(DISTINCT t.age) AS a, SUM(DISTINCT t.income) AS b, COUNT(t.id) AS n FROM users AS t GROUP BY t.city"];
     let mut made = 0; let mut attempts = 0;
     while made < n && attempts < n * 20 {
         attempts += 1;
